@@ -16,6 +16,7 @@ package price
 
 import (
 	"fmt"
+	"sort"
 
 	"github.com/sboehler/knut/lib/common/dict"
 	"github.com/sboehler/knut/lib/model/commodity"
@@ -45,22 +46,32 @@ func (ps Prices) addPrice(target, commodity *commodity.Commodity, price decimal.
 }
 
 // Normalize creates a normalized price map for the given commodity.
+// The price graph is traversed breadth-first and neighbors are visited
+// in the order of their names. Therefore, a price which has been declared
+// directly against t always takes precedence over a price derived through
+// a chain of other commodities, shorter chains take precedence over longer
+// ones, and the result does not depend on the map iteration order.
 func (ps Prices) Normalize(t *commodity.Commodity) NormalizedPrices {
 	res := NormalizedPrices{t: one}
-	ps.normalize(t, res)
-	return res
-}
-
-// normalize recursively computes prices by traversing the price graph.
-// res must already contain a price for c.
-func (ps Prices) normalize(c *commodity.Commodity, res NormalizedPrices) {
-	for neighbor, price := range ps[c] {
-		if _, done := res[neighbor]; done {
-			continue
+	queue := []*commodity.Commodity{t}
+	for len(queue) > 0 {
+		c := queue[0]
+		queue = queue[1:]
+		neighbors := make([]*commodity.Commodity, 0, len(ps[c]))
+		for neighbor := range ps[c] {
+			if _, done := res[neighbor]; !done {
+				neighbors = append(neighbors, neighbor)
+			}
 		}
-		res[neighbor] = Multiply(price, res[c])
-		ps.normalize(neighbor, res)
+		sort.Slice(neighbors, func(i, j int) bool {
+			return neighbors[i].Name() < neighbors[j].Name()
+		})
+		for _, neighbor := range neighbors {
+			res[neighbor] = Multiply(ps[c][neighbor], res[c])
+			queue = append(queue, neighbor)
+		}
 	}
+	return res
 }
 
 // NormalizedPrices is a map representing the price of
